@@ -138,3 +138,35 @@ Example pending_image_untouched_witness :
   let s := run init ops in let f := frun finit ops in
   In O (ids (pending s)) /\ read_word (nth O (f_secs f) []) 2 1 = 0 /\ unresolved s = 1.
 Proof. cbv zeta. split; [vm_compute; left; reflexivity|]. split; vm_compute; reflexivity. Qed.
+
+(* ------------------------------------------------------------------ round 7: resolution is permanent (sequence level) *)
+(* an operation never makes an existing reference pending again: the pending ids after a step are pending ids before it, or the id of
+   the reference the step just created *)
+Lemma step_pending_sub s o id :
+  In id (ids (pending (fst (step s o)))) -> In id (ids (pending s)) \/ id = length (refs s).
+Proof.
+  assert (K : forall sel fie, In id (ids (w_kept (resolve_list sel fie (pending s) (refs s)))) -> In id (ids (pending s))).
+  { intros sel fie H. unfold ids in *. apply in_map_iff in H. destruct H as (fx & E & H). apply in_map_iff. exists fx. split; [exact E|eapply kept_sub; exact H]. }
+  destruct o; cbn [step]; try (intros H; left; exact H).
+  - destruct (Nat.ltb k (length (secs s))); intros H; left; exact H.
+  - destruct (0 <=? n); intros H; left; exact H.
+  - destruct (nth_error (labels s) l) as [lb|]; [|intros H; left; exact H].
+    destruct (hole_ok k w0); cbn [negb]; cbv iota; [|intros H; left; exact H].
+    destruct lb as [[ls lo]|]; [destruct (Nat.eqb ls (cur s)); [destruct (write_offset _ _ _); intros H; left; exact H|]|];
+      cbn [fst set_fix pending ids map fx_id]; intros [<-|H]; [right; reflexivity|left; exact H|right; reflexivity|left; exact H].
+  - destruct (nth_error (labels s) l) as [[v|]|]; try (intros H; left; exact H).
+    destruct (bind_precheck l (cur s) (s_len (cur_sec s)) (pending s) (refs s)); cbn [negb]; cbv iota; [|intros H; left; exact H].
+    destruct (bind_rel l (cur s) (s_len (cur_sec s)) (pending_rel s) (relocs s)) as [[prk rl] nrel]. cbn [fst set_fix pending].
+    intros H. left. exact (K _ _ H).
+  - destruct (nth_error (labels s) l) as [lb|]; [|intros H; left; exact H].
+    destruct (size_ok size); cbn [negb]; cbv iota; [|intros H; left; exact H]. destruct lb; intros H; left; exact H.
+  - destruct (nth_error (labels s) l) as [ll|]; [|intros H; left; exact H].
+    destruct (nth_error (labels s) b) as [lb|]; [|intros H; left; exact H].
+    destruct (size_ok size); cbn [negb]; cbv iota; [|intros H; left; exact H].
+    destruct (match ll with Some (ls, lo) => _ | None => None end); intros H; left; exact H.
+  - cbn [fst set_fix pending]. intros H. left. exact (K _ _ H).
+  - destruct (nth_error (labels s) l) as [ll|]; [|intros H; left; exact H].
+    destruct (nth_error (labels s) b) as [lb|]; [|intros H; left; exact H].
+    destruct (size_ok size); cbn [negb]; cbv iota; [|intros H; left; exact H].
+    destruct (match ll with Some (ls, lo) => _ | None => None end); [destruct (_ || _)|]; intros H; left; exact H.
+Qed.
